@@ -262,7 +262,9 @@ Section Server.
   (* The served directory as os.Open/os.Create(s.Path + name) sees it for a name that is
      a path.Base result: regular files, sub-directories, and the names that resolve to
      directories or are refused by the kernel. *)
-  Inductive dirent := DFile (content : bytes) | DDir.
+  (* DErr: an entry that cannot be opened for a reason other than "does not exist"
+     (symbolic link loop, permission, I/O error) *)
+  Inductive dirent := DFile (content : bytes) | DDir | DErr.
   Definition idir := list (bytes * dirent).
   Inductive open_result := ONotExist | OIsDir | OErr | OFile (content : bytes).
 
@@ -286,6 +288,7 @@ Section Server.
     else match dlookup n d with
          | None => ONotExist
          | Some DDir => OIsDir
+         | Some DErr => OErr
          | Some (DFile b) => OFile b
          end.
 
@@ -294,7 +297,7 @@ Section Server.
     if special_name n then None
     else if bad_name n then None
     else match dlookup n d with
-         | Some DDir => None
+         | Some DDir | Some DErr => None
          | _ => Some (dupdate n (DFile content) d)
          end.
 
